@@ -133,6 +133,25 @@ def run(c):
                      "(every cell except the 8 bases); evaluations = concrete verifier calls (several concrete tokens per cell for "
                      "bit-flip/garbage/segment-count classes) + recorded random strings")
 
+    if c.replay:
+        # re-run one stored counterexample: the cell of the replay file is concretised again and judged
+        rp = json.load(open(c.replay))["replay"]
+        r = c.tlc(SD, "MC_SnapToken", cfg=cfg(c, "mc_meta.cfg", MC_TMPL.format(nbf="TRUE", depth=0, hotfrom=3, gen="TRUE")), coverage=False)
+        meta = c.printed_json(r, "META")
+        cell = {"case": rp["case"], "must": rp["must"], "why": rp["why"], "impl": None, "life": 0}
+        inp, outp = os.path.join(c.work, "one.ndjson"), os.path.join(c.work, "one_out.ndjson")
+        write_ndjson(inp, [dict(meta[0], ev="meta"), cell])
+        rc, so = c.sh([binp, "replay", inp, outp], timeout=600)
+        if rc != 0:
+            c.fail_tool("replay harness failed rc=%s" % rc)
+        st = {"calls": 0, "http": 0, "registrations": 0, "drift": 0}
+        for ob in read_ndjson(outp)[0]["obs"]:
+            c.log("stored cell %s: verifier says %s (%s), router %s, registration %s" % (delta(rp["case"]), ob["got"], ob.get("err"), ob.get("http"), ob.get("reg")))
+            judge(c, rp["case"], rp["must"], rp["why"], None, None, ob, "stored replay", st)
+        c.cov["replayed"] = 1
+        c.cov["evaluations"] = st["calls"]
+        return
+
     # ---- 1. decision table: refinement I => P on every cell, oracle self-check ---------------------
     # quick: every pair of mutations; thorough: additionally every triple of mutations of the security-relevant
     # fields (cfg, kid, alg, sig, ver, aud, exp, nbf)
